@@ -377,10 +377,31 @@ func (g *progGen) elemTy() *T {
 }
 
 func (g *progGen) genStr(d int) string {
-	switch g.r.Intn(6) {
+	switch g.r.Intn(7) {
 	case 0, 1:
 		g.hit("str:+")
 		return g.opCall("+", g.gen(tStr, d), g.gen(tStr, d))
+	case 4:
+		// the same variable twice inside one rendered value (a shared sub-value, not a cycle)
+		var cands []string
+		for _, v := range g.vars {
+			if v.Ty.K == "list" || v.Ty.K == "map" || v.Ty.K == "obj" || v.Ty.K == "maybe" {
+				cands = append(cands, v.Name)
+			}
+		}
+		if len(cands) > 0 {
+			x := g.pick(cands)
+			g.hit("str:string-shared")
+			switch g.r.Intn(3) {
+			case 0:
+				return g.fn("string", "["+x+", "+x+"]")
+			case 1:
+				return g.fn("string", "{a: "+x+", b: ["+x+"]}")
+			default:
+				return g.fn("string", "[\"k1\": "+x+", \"k2\": "+x+"]")
+			}
+		}
+		return g.leaf(tStr)
 	case 2, 3:
 		g.hit("str:string")
 		ts := []*T{tNum, tStr, tBool, tTime, tList(tNum), tList(tStr), tMap(tStr, tNum), tMap(tNum, tStr), tObj(TF{"b", tStr}, TF{"a", tNum}), tList(tObj(TF{"a", tNum}, TF{"b", tStr}))}
@@ -509,6 +530,31 @@ func (g *progGen) hostCall(t *T, d int) (string, bool) {
 // breakType applies a type-breaking mutation at the source level: replaces one balanced
 // sub-expression by an expression of another type, drops or duplicates a call argument.
 func (g *progGen) breakType(src string) string {
+	// object literals: add a field (a strict superset of the expected type), drop or rename one
+	if i := strings.Index(src, "{"); i >= 0 && g.r.Intn(3) == 0 {
+		objs := []int{}
+		for j := 0; j < len(src); j++ {
+			if src[j] == '{' {
+				objs = append(objs, j)
+			}
+		}
+		j := objs[g.r.Intn(len(objs))]
+		switch g.r.Intn(3) {
+		case 0:
+			if j+1 < len(src) && src[j+1] == '}' {
+				return src[:j+1] + "zz: 1" + src[j+1:]
+			}
+			return src[:j+1] + "zz: \"x\", " + src[j+1:]
+		case 1:
+			if k := strings.Index(src[j:], ":"); k > 0 {
+				return src[:j+k] + "x" + src[j+k:] // rename the first field
+			}
+		default:
+			if k := strings.IndexAny(src[j:], ",}"); k > 0 && src[j+k] == ',' {
+				return src[:j+1] + src[j+k+1:] // drop the first field
+			}
+		}
+	}
 	spans := subExprSpans(src)
 	if len(spans) == 0 {
 		return src + " + \"x\""
